@@ -58,11 +58,11 @@ class GetItem(FnContract):
         h = ctx['entry']
         if outcome[0] == 'return':
             top = Val.dref(h.lelt(s, g['M']))
-            ex.prove('C10:__getitem__:returns-innermost-binding', ['C10', 'C07'],
+            ex.prove('C10:__getitem__:returns-innermost-binding', ['C10', 'C07', 'C18'],
                      z3.And(g['EXISTS'], outcome[1] == h.dval(top, item)),
                      {'watch': {'M': g['M'], 'n': n, 'result': outcome[1]}})
         else:
-            ex.prove('C10:__getitem__:raises-KeyError-iff-unbound', ['C10', 'C16'],
+            ex.prove('C10:__getitem__:raises-KeyError-iff-unbound', ['C10', 'C16', 'C18', 'C07'],
                      z3.And(outcome[1] == L.EXC_ID['KeyError'], z3.Not(g['EXISTS'])))
         frame_check(ex, ctx, [], '__getitem__', ['C10'])
 
